@@ -2,6 +2,7 @@
 package storesim
 
 import (
+	"sync"
 	"encoding/json"
 	"fmt"
 	"math/rand"
@@ -537,6 +538,86 @@ func (w *c10world) getRace(id string, v interface{}, dbg string) (rec, error) {
 		"dbg": fmt.Sprintf("%s %s: mutation while a get request was being answered (base = that get response, events after it), mutation-error=%v", w.cfg, dbg, merr)}, nil
 }
 
+// concurrentResources: n resources of the handler are created, a client gets each of them, then n
+// goroutines - one per resource - apply k mutations each at the same time. Per resource: the events
+// published for it, applied in order to what the client got, give what a fresh get returns.
+func (w *c10world) concurrentResources(seed int64, n, k int) ([]rec, error) {
+	ids := make([]string, n)
+	before := make([]rec, n)
+	mk := func(rng *rand.Rand) interface{} {
+		vals := make([]int, rng.Intn(6))
+		for i := range vals {
+			vals[i] = rng.Intn(len(c10vals))
+		}
+		if w.cfg.typ == "model" {
+			m := map[string]interface{}{}
+			for i, x := range vals {
+				m[[]string{"a", "b", "c", "d", "e", "f"}[i]] = c10vals[x]
+			}
+			return m
+		}
+		return mkCollection(vals)
+	}
+	setup := rand.New(rand.NewSource(seed))
+	for i := range ids {
+		ids[i] = fmt.Sprintf("c%d", i+1)
+		if err := w.mutate(ids[i], mk(setup)); err != nil {
+			return nil, err
+		}
+	}
+	w.settle()
+	for i := range ids {
+		b, err := w.h.get(w.base + ids[i])
+		if err != nil {
+			return nil, err
+		}
+		before[i] = b
+	}
+	from := len(w.h.conn.Pubs())
+	var wg sync.WaitGroup
+	errs := make([]string, n)
+	for i := range ids {
+		wg.Add(1)
+		go func(i int) {
+			defer wg.Done()
+			rng := rand.New(rand.NewSource(seed*31 + int64(i)))
+			for j := 0; j < k; j++ {
+				if err := w.mutate(ids[i], mk(rng)); err != nil && errs[i] == "" {
+					errs[i] = err.Error()
+				}
+			}
+		}(i)
+	}
+	wg.Wait()
+	w.settle()
+	var out []rec
+	for i := range ids {
+		rid := w.base + ids[i]
+		evs, _, _ := w.h.eventsSince(from, rid)
+		after, err := w.h.get(rid)
+		if err != nil {
+			return out, err
+		}
+		out = append(out, rec{"judge": "coherent", "before": before[i], "evs": evs, "after": after, "stray": []string{},
+			"dbg": fmt.Sprintf("%s resource %s: %d mutations while %d other resources of the handler were mutated by other goroutines, first mutation error=%q", w.cfg, rid, k, n-1, errs[i])})
+	}
+	return out, nil
+}
+
+// settle waits until the service has published everything the mutations so far gave rise to.
+func (w *c10world) settle() {
+	last, stable := -1, 0
+	for i := 0; i < 400 && stable < 5; i++ {
+		n := len(w.h.conn.Pubs())
+		if n == last {
+			stable++
+		} else {
+			stable, last = 0, n
+		}
+		time.Sleep(time.Millisecond)
+	}
+}
+
 // observe performs a mutation and records before / events / after.
 func (w *c10world) observe(id string, v interface{}, dbg string) (rec, error) {
 	rid := w.base + id
@@ -717,6 +798,24 @@ func RunC10(c *core.Ctx) {
 				r, err := w.observe(id, v, fmt.Sprintf("history %d step %d", hI, step))
 				add(cfg, r, err)
 			}
+		}
+		w.close()
+	}
+	// (3) several resources of one handler changed at the same time from different goroutines: every client
+	// still ends up with what a fresh get returns
+	for rI := 0; rI < c.Pick(6, 40); rI++ {
+		cfg := c10cfg{typ: []string{"collection", "collection", "model"}[rI%3], trans: []string{"id", "none"}[rI%2], backend: "badger"}
+		w, err := newC10World(cfg)
+		if err != nil {
+			c.Inconclusive("cannot build %s: %v", cfg, err)
+			continue
+		}
+		rs, err := w.concurrentResources(c.Seed*977+int64(rI), 4, 20)
+		if err != nil {
+			add(cfg, nil, err)
+		}
+		for _, r := range rs {
+			add(cfg, r, nil)
 		}
 		w.close()
 	}
